@@ -382,6 +382,10 @@ impl Database {
 
     /// Flushes all dirty data and metadata to disk. Returns number of flushed regions.
     pub fn flush(&self) -> Result<usize> {
+        // Only holes that are pending now are covered by the syncs below: one that a
+        // concurrent relocation or removal adds meanwhile must wait for the next flush.
+        let pending_before = self.layout().pending_hole_starts();
+
         let dirty_regions: Vec<(Region, Option<(usize, usize)>)> = self
             .regions()
             .index_to_region()
@@ -407,7 +411,7 @@ impl Database {
                 regions.flush()?;
                 regions.sync_data()?;
             }
-            layout.promote_pending_holes(self.name());
+            layout.promote_pending_holes_among(self.name(), &pending_before);
             return Ok(0);
         }
 
@@ -446,7 +450,8 @@ impl Database {
         }
 
         debug!("{}: flushed {} regions", self, dirty_regions.len());
-        self.layout_mut().promote_pending_holes(self.name());
+        self.layout_mut()
+            .promote_pending_holes_among(self.name(), &pending_before);
         Ok(dirty_regions.len())
     }
 
